@@ -7,7 +7,18 @@
    The reply is one line starting with "= ".  While computing a reply the driver may emit oracle
    requests "? name hexarg ..." and then reads one line with the hex answer (or "!" for an error). *)
 
-open Model
+(* the extracted modules are named after the Coq modules; some (List, Nat, String) shadow the
+   OCaml standard library, so the standard ones are re-bound here *)
+module List = Stdlib.List
+module String = Stdlib.String
+module Hashtbl = Stdlib.Hashtbl
+module Buffer = Stdlib.Buffer
+module Char = Stdlib.Char
+module Printf = Stdlib.Printf
+open BinNums
+open Datatypes
+type n = coq_N
+type z = coq_Z
 
 (* ---------- S-expressions ---------- *)
 type sexp = A of string | L of sexp list
@@ -42,9 +53,9 @@ let rec show_sexp = function
 
 (* ---------- numbers ---------- *)
 let rec pos_of_int (i : int) : positive =
-  if i = 1 then XH else if i land 1 = 0 then XO (pos_of_int (i lsr 1)) else XI (pos_of_int (i lsr 1))
+  if i = 1 then Coq_xH else if i land 1 = 0 then Coq_xO (pos_of_int (i lsr 1)) else Coq_xI (pos_of_int (i lsr 1))
 let n_of_int (i : int) : n = if i = 0 then N0 else if i < 0 then failwith "n_of_int: negative" else Npos (pos_of_int i)
-let rec int_of_pos = function XH -> 1 | XO p -> 2 * int_of_pos p | XI p -> 2 * int_of_pos p + 1
+let rec int_of_pos = function Coq_xH -> 1 | Coq_xO p -> 2 * int_of_pos p | Coq_xI p -> 2 * int_of_pos p + 1
 let int_of_n = function N0 -> 0 | Npos p -> int_of_pos p
 let rec nat_of_int (i : int) : nat = if i <= 0 then O else S (nat_of_int (i - 1))
 let rec int_of_nat = function O -> 0 | S k -> 1 + int_of_nat k
